@@ -577,6 +577,11 @@ func (c *Ctx) StoreOrder(fnSpec, field, before string, after []string, desc stri
 }
 
 // followedBy: every path from instruction `from` to a success exit passes one of the calls.
+// FollowedBy: on every path from `from` to a successful exit one of the calls executes.
+func (c *Ctx) FollowedBy(f *ir.Func, from ssa.Instruction, calls []ssa.CallInstruction) bool {
+	return c.followedBy(f, from, calls)
+}
+
 func (c *Ctx) followedBy(f *ir.Func, from ssa.Instruction, calls []ssa.CallInstruction) bool {
 	blocks := map[*ssa.BasicBlock]bool{}
 	for _, call := range calls {
